@@ -111,6 +111,21 @@ CHECKS = {
              "over all sequences of depth 5 (quick) / 6 (thorough) of the reduced alphabets, seeded sampling beyond.",
         note="Direct histories on a Network object; get_introductions_from is executed but not compared (the statement does not "
              "name it). Single-threaded."),
+    "C13": dict(
+        level="exploration", design="DESIGN.md 4/C13",
+        technique=TECH + ": real Community nodes on real UDP/Dispatcher endpoints behind simulated cone NAT boxes (mapping + "
+                         "filtering enforced by SimNet), full 4x4 NAT grid x placements x message styles, real RandomWalk steps, "
+                         "quiescence-based phases, causality-linked puncture oracle",
+        text="A public introducer, a requester and 1..5 candidates are placed behind none/full-cone/address-restricted/port-"
+             "restricted NATs (all 16 combinations), behind one shared NAT (LAN segment) or public, with old- and new-style "
+             "messages. After everybody walked to the introducer, the requester asks for an introduction and then performs its "
+             "next contact attempts with the real RandomWalk. For every introduction the introducer hands out there must be a "
+             "puncture-request (same causing datagram) to the introduced peer naming the requester; afterwards requester and "
+             "introduced peer must be in each other's verified peers; same-NAT pairs must have connected over LAN addresses. "
+             "Lossy configurations with retry rounds are judged only for rounds without loss. Grid complete in the quick tier, "
+             "seeded variation (ports, latencies, orders, candidates) beyond.",
+        note="Symmetric NATs, mapping time-outs and introductions handed out by NATed nodes are out of scope. NAT drop logs are "
+             "evidence, not oracle."),
     "C14": dict(
         level="exploration", design="DESIGN.md 4/C14",
         technique=TECH + ": seeded histories (add/update/status change/clock advance/remove_bad_nodes/closest) on the real "
